@@ -1,0 +1,4 @@
+// Package verifapi re-exports internals for the external verification
+// harness. Every other file in this package is guarded by the "verif" build
+// tag; without the tag the package is empty.
+package verifapi
